@@ -16,8 +16,9 @@ import (
 // their argument: evaluation order and multiplicity are observable.
 
 type gen struct {
-	rng *rand.Rand
-	nid int
+	rng  *rand.Rand
+	nid  int
+	inst int // running number of this instance of its template: small option spaces are enumerated, not sampled
 }
 
 func (g *gen) id() int { g.nid++; return g.nid }
@@ -370,7 +371,7 @@ var templates = []template{
 		case 2:
 			e = "!(" + g.Int() + " == " + g.Int() + " && (" + g.Bool() + " || " + g.Int() + " < " + g.Int() + "))"
 		default:
-			e = "!(!" + g.Bool() + " || " + g.Int() + " != " + g.Int() + " && " + g.Bool() + ")"
+			e = "!(!(" + g.Bool() + ") || " + g.Int() + " != " + g.Int() + " && " + g.Bool() + ")"
 		}
 		if g.rng.IntN(2) == 0 {
 			return "if " + e + " {\n" + note(g.Int()) + "}\n" + note(g.Bool())
@@ -413,7 +414,14 @@ var templates = []template{
 		}
 	}},
 	{check: "QF1005", gen: func(g *gen) string {
-		return note(g.Int()) + note("math.Pow("+g.Float()+", "+g.pick("2", "3", "1", "0", "2", "3")+")")
+		// exponent x {pure, side-effecting base} is enumerated: the expansions for 0 and 1 drop
+		// or keep the base once, those for 2 and 3 repeat it
+		exp := []string{"0", "1", "2", "3"}[g.inst%4]
+		base := g.pureFloat()
+		if (g.inst/4)%2 == 1 {
+			base = fmt.Sprintf("trf(%d, %s)", g.id(), g.pureFloat())
+		}
+		return note(g.Int()) + note("math.Pow("+base+", "+exp+")")
 	}},
 	{check: "QF1006", gen: func(g *gen) string {
 		cond := g.pick("i >= "+g.pureInt(), "i > 2 || "+g.pureBool(), "trb("+fmt.Sprint(g.id())+", i >= 3)", "!(i < 2 && "+g.pureBool()+")")
